@@ -7,6 +7,12 @@ except Exception:      # prover process: the repository is not importable (and n
     RXNSide = None
 
 PROPERTY = "C15"
+TRUSTED = ["A-builtins (dict/set/defaultdict methods)", "A-copy (deepcopy of a str->int dict is an equal fresh dict)",
+           "A-fmt (the id formatter f'{rule}_{cnt}' is an uninterpreted function)"]
+ASSUMPTIONS = ["containers are modelled as values: two RXNSide objects never share one `data` dict (true of every constructor in rxn.py)",
+               "add_rxn is verified for RXNSide and str->int mapping arguments; iterables of labels / pairs go through the bounded twin only",
+               "history quantifier: induction over the operation sequence (every operation proved to preserve wf from any wf state)"]
+NOT_APPLICABLE_CLAUSES = []
 HG = "synkit/CRN/Hypergraph/hypergraph.py"
 
 CLASSES = {
